@@ -1,4 +1,5 @@
 import RSocketModel.Proofs.C14Lemmas
+import RSocketModel.Codec
 /-!
 # C14 — Lease: no request without a valid lease, never more than granted
 Property theorems only. All statements are for every sequence of LEASE frames and requests at
@@ -166,3 +167,34 @@ example : (run (init 0 0) [.request 1 0, .request 2 1, .request 3 2, .lease 2 10
     (run (init 0 0) [.request 1 0, .request 2 1, .request 3 2, .lease 2 100 10, .request 4 11]).queue = [3, 4] := by decide
 
 end RSocketModel.Lease
+
+namespace RSocketModel.Codec
+
+/-! ### what a received LEASE frame grants: the reserved top bit of both fields is not part of the value -/
+
+/-- Decoding a LEASE frame of at least 8 body bytes: time-to-live and number of requests are the
+two 32-bit words *modulo 2^31* - whatever the reserved top bits carry, the requester is granted
+the 31-bit values, both below 2^31. -/
+theorem c14_lease_reserved_bits_ignored (h : Header) (hty : h.ty = 2) (buf : Bytes) (hl : 8 ≤ buf.length) :
+    parseBody h buf = .ok (.lease h.sid h.ign (beVal (buf.take 4) % 2 ^ 31) (beVal ((buf.drop 4).take 4) % 2 ^ 31)
+      (if h.m then buf.drop 8 else [])) := by
+  have h4 : 4 ≤ buf.length := by omega
+  have h4' : 4 ≤ buf.length - 4 := by omega
+  simp [parseBody, hty, readBE, h4, h4', bind, R.bind, pure, List.drop_drop]
+
+theorem c14_lease_fields_below_2_31 (h : Header) (hty : h.ty = 2) (buf : Bytes) (f : Frame) (hp : parseBody h buf = .ok f) :
+    ∃ t n md, f = .lease h.sid h.ign t n md ∧ t < 2 ^ 31 ∧ n < 2 ^ 31 := by
+  by_cases hl : 8 ≤ buf.length
+  · rw [c14_lease_reserved_bits_ignored h hty buf hl] at hp
+    cases hp
+    exact ⟨_, _, _, rfl, Nat.mod_lt _ (by decide), Nat.mod_lt _ (by decide)⟩
+  · exfalso
+    by_cases h4 : 4 ≤ buf.length
+    · have h4' : ¬ 4 ≤ buf.length - 4 := by omega
+      simp [parseBody, hty, readBE, h4, h4', bind, R.bind] at hp
+    · simp [parseBody, hty, readBE, h4, bind, R.bind] at hp
+
+/-- Non-vacuity: ttl word 0x80000064, requests word 0x80000002: granted 100 ms and 2 requests. -/
+example : decode [0, 0, 0, 0, 0x08, 0, 0x80, 0, 0, 0x64, 0x80, 0, 0, 2] = .frame (.lease 0 false 100 2 []) := by decide
+
+end RSocketModel.Codec
